@@ -390,6 +390,70 @@ func runC09(c *core.Ctx) core.Meta {
 		}, owners[f]...)
 	}
 
+	// ---------------- R09.8 a placed work-group is remembered until it was sent ----------------
+	st8 := c.Rule("R09.8", "the placement algorithm's Next() reserves resources and counts the work-group as handed out; in the dispatcher every path from a call of Next() to a return either stores the returned location in the dispatcher's pending slot (currWG) or passes the success edge of the Send of its map request: a location kept only in a local is forgotten when the Send is refused, the work-group is never mapped, its reservation is never freed and the kernel is reported complete without it", 1)
+	for _, fn := range pd.Funcs {
+		var g *core.Graph
+		for _, b := range fn.Blocks {
+			for _, in := range b.Instrs {
+				cc := core.CallOf(in)
+				if cc == nil || !cc.IsInvoke() || cc.Method.Name() != "Next" || namedTypeName(cc.Value.Type()) != "dispatching.algorithm" {
+					continue
+				}
+				nextVal, isVal := in.(ssa.Value)
+				if !isVal {
+					continue
+				}
+				if g == nil {
+					g = core.BuildGraph(fn, 0, nil)
+				}
+				n := g.NodeOf(in)
+				if n == nil {
+					continue
+				}
+				st8.Instances++
+				c.MarkAnalysed(fn)
+				remembered := func(m *core.Node) bool {
+					s, ok := storeToField(m.Instr, "DispatcherImpl.currWG")
+					if !ok {
+						return false
+					}
+					return dependsOn(s.Val, func(v ssa.Value) bool {
+						if v == nextVal {
+							return true
+						}
+						// a struct kept in a local variable: `loc = alg.Next(); d.currWG = loc`
+						if ld, ok := v.(*ssa.UnOp); ok && ld.Op == token.MUL {
+							if al, ok := ld.X.(*ssa.Alloc); ok && al.Referrers() != nil {
+								for _, r := range *al.Referrers() {
+									if st, ok := r.(*ssa.Store); ok && st.Addr == ssa.Value(al) && st.Val == nextVal {
+										return true
+									}
+								}
+							}
+						}
+						return false
+					}, map[ssa.Value]bool{})
+				}
+				sent := NilCut(func(v ssa.Value) bool {
+					vi, ok := v.(ssa.Instruction)
+					return ok && SendOn(vi, "dispatchingPort")
+				}, true)
+				var leak *core.Node
+				g.Walk(core.After(n, nil), core.WalkOpts{ForwardOnly: true, Stop: remembered, CutEdge: func(m *core.Node, i int) bool { return sent(m, i) }}, func(x core.State) {
+					if _, isRet := x.N.Instr.(*ssa.Return); isRet && leak == nil {
+						leak = x.N
+					}
+				})
+				st8.Ob(leak == nil)
+				st8.Sample("%s: the location returned by Next() is stored in currWG or sent on every path: %v", core.FuncName(fn), leak == nil)
+				if leak != nil {
+					c.ReportAt("R09.8", fn, in.Pos(), "next-not-remembered", core.FuncName(fn)+" can return after alg.Next() without having stored the returned location in currWG and without a successful Send of its map request: when the port refuses the request the work-group is lost (never mapped, resources never freed) and kernelCompleted() becomes true without it")
+				}
+			}
+		}
+	}
+
 	st4 := c.Rule("R09.4", "the launch response is constructed only where kernelCompleted() held; kernelCompleted returns true only after testing no pending work-group, no further work-group and completed >= dispatched; the response answers the dispatching request; a dispatcher starts a kernel only when it is not dispatching", 4)
 	var kc *ssa.Function
 	for _, fn := range pd.Funcs {
